@@ -21,7 +21,7 @@ from s3transfer.futures import NonThreadedExecutor
 from s3transfer.manager import TransferConfig, TransferManager
 from s3transfer.utils import ChunksizeAdjuster as _RealAdjuster
 
-from . import detsched
+from . import detsched, statereset
 from .detsched import Sched, SHIM, DetExecutor, AbortExecution
 from .env.s3 import FakeS3, FakeClient, FaultPlan
 from .env.fs import FaultyOSUtils, ScratchDir, SourceStream, SinkStream  # noqa: F401
@@ -36,6 +36,10 @@ _PATCHED = [s3transfer.futures, s3transfer.utils, s3transfer.download,
 
 def install():
     """Bind the controlled primitives into the s3transfer modules (idempotent)."""
+    import s3transfer.tasks, s3transfer.delete, s3transfer.subscribers, s3transfer.compat, s3transfer.constants  # noqa
+    statereset.register(s3transfer, s3transfer.futures, s3transfer.utils, s3transfer.download, s3transfer.manager,
+                        s3transfer.bandwidth, s3transfer.upload, s3transfer.copies, s3transfer.tasks, s3transfer.delete,
+                        s3transfer.subscribers, s3transfer.compat, s3transfer.constants)
     for m in _PATCHED:
         m.threading = SHIM
     s3transfer.bandwidth.time = _TimeShim()
@@ -510,6 +514,7 @@ def run_scenario(scn, prefix=(), scratch=None, record_points=False, on_point=Non
     else:
         scratch.reset()
     random.seed(scn.get('seed', 0) * 7919 + 17)
+    statereset.restore()
     sched = Sched(prefix=prefix, horizon=scn.get('horizon', 30000),
                   record_points=record_points)
     if scn.get('granularity', 'fine') == 'coarse':
